@@ -64,24 +64,68 @@ def _r161(ctx: Ctx) -> None:
     ctx.ob('R16.1', site_of(ami, se), 'p_th_fss_se is the standard deviation of the same column',
            ast.unparse(se).replace(' ', '') == f'{col}.std()'.replace(' ', ''), f'p_th_fss_se = {ast.unparse(se)}',
            key='calculate_thresholds|se')
-    # fit_found
-    txt = ast.unparse(fn).replace(' ', '').replace('\n', '').replace('"', "'")
-    ctx.ob('R16.3', site, "fit_found is exactly fit_status == 'success'", "'fit_found':fit_status=='success'" in txt,
-           'fit_found not derived from fit_status', key='calculate_thresholds|fit_found')
-    ctx.ob('R16.3', site, 'fit_status comes from get_fit_status(entry)', 'fit_status=self.get_fit_status(entry)' in txt,
-           'fit_status not computed by get_fit_status', key='calculate_thresholds|fit_status')
+    # fit_found / fit_status: evaluate the dictionary entries
+    ff = None
+    for n in ast.walk(fn):
+        if isinstance(n, ast.Dict):
+            for k, v in zip(n.keys, n.values):
+                if isinstance(k, ast.Constant) and k.value == 'fit_found':
+                    ff = (n, v)
+    ctx.need(ff is not None, 'R16.3', site, "'fit_found' entry not found")
+    names = {x.id for x in ast.walk(ff[1]) if isinstance(x, ast.Name)}
+    ctx.need(len(names) == 1, 'R16.3', site_of(ami, ff[1]), f'fit_found depends on {sorted(names)}')
+    var = names.pop()
+    from ..interp import Env as _Env
+    it = Interp(m)
+    vals = {}
+    for status in ('success', 'Curve fitting failed.', ''):
+        e = _Env(ami)
+        e.vars[var] = status
+        vals[status] = it.ev(ff[1], e)
+    ok = vals == {'success': True, 'Curve fitting failed.': False, '': False}
+    ctx.ob('R16.3', site_of(ami, ff[1]), "fit_found is true exactly when the status is 'success'", ok,
+           f'fit_found as a function of the status: {vals}', key='calculate_thresholds|fit_found', facts=vals)
+    defs = [n for n in ast.walk(fn) if isinstance(n, ast.Assign) and isinstance(n.targets[0], ast.Name)
+            and n.targets[0].id == var]
+    ok = len(defs) == 1 and isinstance(defs[0].value, ast.Call) and isinstance(defs[0].value.func, ast.Attribute) \
+        and defs[0].value.func.attr == 'get_fit_status' and len(defs[0].value.args) == 1 \
+        and ast.unparse(defs[0].value.args[0]) == 'entry'
+    ctx.ob('R16.3', site_of(ami, defs[0]) if defs else site, 'the status comes from get_fit_status(entry) of the same entry', ok,
+           f'{[norm_stmt(d) for d in defs]}', key='calculate_thresholds|fit_status')
+
+
+def _has_sort(expr: ast.AST) -> bool:
+    for n in ast.walk(expr):
+        if isinstance(n, ast.Call):
+            f = n.func
+            if isinstance(f, ast.Attribute) and f.attr in ('sort_values', 'sort_index', 'sort'):
+                return True
+            if isinstance(f, ast.Name) and f.id == 'sorted':
+                return True
+            if isinstance(f, ast.Attribute) and f.attr == 'sort' and ast.unparse(f.value) in ('np', 'numpy'):
+                return True
+    return False
 
 
 def _r162(ctx: Ctx) -> None:
     m = ctx.model
     ami = m.module('panqec.analysis')
     aci = m.cls('Analysis')
-
-    def has(fn, needle):
-        return needle in ast.unparse(fn).replace(' ', '').replace('\n', '').replace('"', "'")
     fn = aci.methods['calculate_thresholds']
-    ctx.ob('R16.2', site_of(ami, fn), 'parameter sets are de-duplicated and sorted before fitting',
-           has(fn, '.drop_duplicates().sort_values(by=param_keys).values'), 'sort_values(by=param_keys) missing',
+    # the collection the fitting loop iterates over must be sorted where it is built (or re-bound sorted)
+    loops = [n for n in ast.walk(fn) if isinstance(n, ast.For) and any(
+        isinstance(c, ast.Call) and isinstance(c.func, ast.Name) and c.func.id == 'fit_fss_params' for c in ast.walk(n))]
+    ctx.need(len(loops) == 1 and isinstance(loops[0].iter, ast.Name), 'R16.2', site_of(ami, fn), 'fitting loop not found')
+    coll = loops[0].iter.id
+    defs = [n for n in ast.walk(fn) if isinstance(n, (ast.Assign, ast.AnnAssign)) and any(
+        isinstance(t, ast.Name) and t.id == coll for t in (n.targets if isinstance(n, ast.Assign) else [n.target]))]
+    first = min(defs, key=lambda n: n.lineno) if defs else None
+    # later re-bindings may only filter the (already sorted) collection
+    ok = first is not None and _has_sort(first.value) and all(
+        d is first or any(isinstance(x, ast.Name) and x.id == coll for x in ast.walk(d.value)) for d in defs)
+    ctx.ob('R16.2', site_of(ami, first) if first is not None else site_of(ami, fn),
+           'parameter sets are sorted before the fitting loop', ok,
+           f'`{coll}` is built without a sort: thresholds (bootstrap random stream) depend on file/row order',
            key='calculate_thresholds|sorted-sets')
     fn = aci.methods['aggregate']
     gb = [n for n in ast.walk(fn) if isinstance(n, ast.Call) and isinstance(n.func, ast.Attribute) and n.func.attr == 'groupby']
@@ -89,21 +133,30 @@ def _r162(ctx: Ctx) -> None:
     ctx.ob('R16.2', site_of(ami, fn), 'aggregated rows come from a sorted group-by', bool(gb) and not nosort,
            'groupby(sort=False) keeps file order', key='aggregate|sorted-groupby')
     _, fn = m.func('panqec.analysis', 'get_p_th_nearest')
-    src = ast.unparse(fn)
-    i_sort = src.find('sort_index()')
-    i_arg = src.find('argsort')
-    ctx.ob('R16.2', site_of(ami, fn), 'crossover table is index-sorted before the order-change heuristic',
-           0 <= i_sort < i_arg, 'p_est_df.sort_index() must precede the argsort heuristic', key='get_p_th_nearest|sort_index')
+    # the table whose rows are argsort-ed must have been sorted by index before
+    arg = [n for n in ast.walk(fn) if isinstance(n, ast.Call) and ast.unparse(n.func).endswith('argsort')]
+    ctx.need(len(arg) >= 1, 'R16.2', site_of(ami, fn), 'order-change heuristic (argsort) not found')
+    tab = [x.id for x in ast.walk(arg[0]) if isinstance(x, ast.Name) and x.id not in ('np', 'numpy')]
+    ctx.need(len(tab) >= 1, 'R16.2', site_of(ami, arg[0]), 'argsort operand not recognised')
+    tname = tab[0]
+    sorts = [n for n in ast.walk(fn) if isinstance(n, ast.Assign) and any(isinstance(t, ast.Name) and t.id == tname for t in n.targets)
+             and _has_sort(n.value) and n.lineno < arg[0].lineno]
+    inplace = [n for n in ast.walk(fn) if isinstance(n, ast.Call) and isinstance(n.func, ast.Attribute)
+               and n.func.attr in ('sort_index', 'sort_values') and ast.unparse(n.func.value) == tname
+               and any(k.arg == 'inplace' for k in n.keywords) and n.lineno < arg[0].lineno]
+    ctx.ob('R16.2', site_of(ami, fn), 'crossover table is sorted before the order-change heuristic', bool(sorts or inplace),
+           f'`{tname}` reaches argsort in insertion (file) order', key='get_p_th_nearest|sort_index')
     _, fn = m.func('panqec.analysis', 'get_code_df')
-    ctx.ob('R16.2', site_of(ami, fn), 'code table sorted by n', has(fn, ".sort_values(by='n')"), 'sort_values missing',
-           key='get_code_df|sorted')
+    rets = [n for n in ast.walk(fn) if isinstance(n, ast.Return)]
+    sorted_somewhere = any(_has_sort(n) for n in ast.walk(fn) if isinstance(n, ast.Assign))
+    ctx.ob('R16.2', site_of(ami, fn), 'code table is sorted', sorted_somewhere, 'no sort in get_code_df', key='get_code_df|sorted')
     _, fn = m.func('panqec.analysis', 'fit_fss_params')
     gens = [n for n in ast.walk(fn) if isinstance(n, ast.Call) and ast.unparse(n.func).endswith('default_rng')]
-    ok = len(gens) == 1 and len(gens[0].args) == 1 and isinstance(gens[0].args[0], ast.Constant) \
-        and isinstance(gens[0].args[0].value, int)
+    ok = len(gens) >= 1 and all(len(g.args) + len(g.keywords) == 1 and isinstance((g.args or [g.keywords[0].value])[0], ast.Constant)
+                                and isinstance((g.args or [g.keywords[0].value])[0].value, int) for g in gens)
     ctx.ob('R16.2', site_of(ami, fn), 'bootstrap generator seeded with a constant', ok,
            f'{[ast.unparse(g) for g in gens]}', key='fit_fss_params|seed')
-    glob = [n for n in ast.walk(fn) if isinstance(n, ast.Call) and ast.unparse(n.func).startswith('np.random.')
+    glob = [n for n in ast.walk(fn) if isinstance(n, ast.Call) and ast.unparse(n.func).startswith(('np.random.', 'numpy.random.', 'random.'))
             and not ast.unparse(n.func).endswith('default_rng')]
     ctx.ob('R16.2', site_of(ami, fn), 'bootstrap draws only from its own generator', not glob,
            f'{[ast.unparse(g) for g in glob]}', key='fit_fss_params|no-global-rng')
@@ -204,23 +257,110 @@ def _r164(ctx: Ctx) -> None:
         if ok is None:
             raise AnalysisError('R16.4', site_of(mi, fn), f'{what}: {detail}')
         ctx.ob('R16.4', site_of(mi, fn), what, ok, detail, key=key, facts=detail)
-    # curve_fit(fit_function, [p_list, d_list], f_list)
+    # get_fit_params: curve_fit(fit_function, (p, d), f) -- interpreted with recorders
+    from ..dfdomain import CT, DF
+    from ..domains import Sym
+    from ..interp import Closure as _Clo
     _, gfp = m.func('panqec.analysis', 'get_fit_params')
-    txt = ast.unparse(gfp).replace(' ', '').replace('\n', '')
-    ok = 'curve_fit(fit_function,x_data,y_data,' in txt and 'x_data=np.array([p_list,d_list])' in txt and 'y_data=f_list' in txt
-    ctx.ob('R16.4', site_of(ami, gfp), 'curve_fit fits fit_function to ((p, d), f)', ok, 'call not in the expected form',
-           key='get_fit_params|curve_fit')
+    rec = []
+
+    class HFit(Hooks):
+        def call(self, it, func, args, kwargs, node, env):
+            if isinstance(func, Ext) and func.name.endswith('curve_fit'):
+                rec.append((args, kwargs))
+                return (Sym('params_opt'), Sym('cov'))
+            if isinstance(func, Ext) and func.name == 'numpy.array':
+                return CT('array', *[x for x in args[0]]) if isinstance(args[0], (list, tuple)) else CT('array', args[0])
+            if isinstance(func, Ext) and (func.name.startswith('warnings') or func.name.startswith('builtins.m')):
+                return TOP
+            return NOT_HANDLED
+    it = Interp(m, HFit())
+    P, D, Fv = CT('col', DF('t'), 'p'), CT('col', DF('t'), 'd'), CT('col', DF('t'), 'f')
+    outs = guard('R16.4', ami, gfp)(lambda: it.explore(
+        lambda: (rec.clear(), it.call_closure(_Clo(gfp, ami), [P, D, Fv], {'params_0': None}, gfp), list(rec))[2]))
+    good = [o for o in outs if o.kind == 'return']
+    ctx.need(good and all(len(o.value) == 1 for o in good), 'R16.4', site_of(ami, gfp), f'get_fit_params: {outs!r}')
+    a, kw = good[0].value[0]
+    ok = len(a) >= 3 and isinstance(a[0], _Clo) and getattr(a[0].fn, 'name', '') == 'fit_function' \
+        and a[1] == CT('array', P, D) and a[2] == Fv
+    ctx.ob('R16.4', site_of(ami, gfp), 'curve_fit fits fit_function to ((p, d), f)', ok,
+           f'curve_fit called with {a[:3]!r}', key='get_fit_params|curve_fit', facts=repr(a[:3]))
+
+    # fit_fss_params: truncation, columns handed to the fit, rescaled column
     _, ffp = m.func('panqec.analysis', 'fit_fss_params')
-    txt = ast.unparse(ffp).replace(' ', '').replace('\n', '').replace('"', "'")
-    ok = "df_trunc['rescaled_p']=rescale_prob([p_list,d_list],*params_opt)" in txt
-    ctx.ob('R16.4', site_of(ami, ffp), 'rescaled column uses the fitted parameters on (p, d)', ok, 'not in the expected form',
-           key='fit_fss_params|rescaled')
-    ok = "d_list=df_trunc['d'].values" in txt and "p_list=df_trunc['error_rate'].values" in txt and 'f_list=df_trunc[p_est].values' in txt
-    ctx.ob('R16.4', site_of(ami, ffp), 'fit columns: d, error_rate and the logical error rate of the truncated table', ok,
-           'column extraction not in the expected form', key='fit_fss_params|columns')
-    ok = "(p_left_val<=df_filt['error_rate'])&(df_filt['error_rate']<=p_right_val)" in txt
-    ctx.ob('R16.4', site_of(ami, ffp), 'fit uses the rows with p_left <= error_rate <= p_right', ok,
-           'truncation not in the expected form', key='fit_fss_params|truncate')
+    calls = []
+
+    class HFss(Hooks):
+        def call(self, it, func, args, kwargs, node, env):
+            if isinstance(func, _Clo) and getattr(func.fn, 'name', '') == 'get_fit_params':
+                calls.append(('fit', args, kwargs))
+                return Sym('params_opt')
+            if isinstance(func, _Clo) and getattr(func.fn, 'name', '') == 'rescale_prob':
+                calls.append(('rescale', args, kwargs))
+                return CT('rescaled')
+            if isinstance(func, Ext) and (func.name.startswith('numpy') or func.name.startswith('pandas')
+                                          or func.name == 'builtins.print'):
+                return TOP
+            return NOT_HANDLED
+
+        def iterate(self, it, value, node):
+            if value is TOP:
+                return []            # bootstrap loops are not needed for this rule
+            return NOT_HANDLED
+    it = Interp(m, HFss())
+    df = DF('df_filt')
+    PL, PR = Sym('p_left'), Sym('p_right')
+
+    def thunk():
+        calls.clear()
+        it.call_closure(_Clo(ffp, ami), [df, PL, PR], {'p_nearest': Sym('p_near'), 'n_bs': 0}, ffp)
+        return list(calls)
+    outs = guard('R16.4', ami, ffp)(lambda: it.explore(thunk))
+    good = [o for o in outs if o.kind == 'return']
+    ctx.need(good, 'R16.4', site_of(ami, ffp), f'fit_fss_params: {outs[:2]!r}')
+    fits = [c for c in good[0].value if c[0] == 'fit']
+    ctx.need(fits, 'R16.4', site_of(ami, ffp), 'fit_fss_params: call of get_fit_params not found')
+    pl, dl, fl = fits[0][1][:3]
+
+    def base_of(t):
+        while isinstance(t, CT) and t.op in ('values', 'col'):
+            if t.op == 'col':
+                return t.args[0], t.args[1]
+            t = t.args[0]
+        return None, None
+    (fp, cp), (fd, cd), (ff_, cf) = base_of(pl), base_of(dl), base_of(fl)
+    ok = cp == 'error_rate' and cd == 'd' and cf == 'p_est' and fp is not None and repr(fp) == repr(fd) == repr(ff_)
+    ctx.ob('R16.4', site_of(ami, ffp), 'fit columns: error_rate, d and the logical error rate of one truncated table', ok,
+           f'get_fit_params({pl!r}, {dl!r}, {fl!r})', key='fit_fss_params|columns', facts=[repr(pl), repr(dl), repr(fl)])
+    cond = getattr(fp, 'cond', None)
+    er = CT('col', df, 'error_rate')
+    want_cond = {repr(CT('and', *sorted((CT('ge', er, PL), CT('le', er, PR)), key=repr))),
+                 repr(CT('and', *sorted((CT('le', PL, er), CT('le', er, PR)), key=repr)))}
+    okc = cond is not None and (repr(cond) in want_cond or _cond_is_closed_interval(cond, er, PL, PR))
+    ctx.ob('R16.4', site_of(ami, ffp), 'fit uses the rows with p_left <= error_rate <= p_right', okc,
+           f'rows selected by {cond!r}', key='fit_fss_params|truncate', facts=repr(cond))
+    resc = [c for c in good[0].value if c[0] == 'rescale']
+    okr = len(resc) == 1 and isinstance(resc[0][1][0], list) and resc[0][1][0] == [pl, dl] \
+        and list(resc[0][1][1:]) == [TOP] or (len(resc) == 1 and resc[0][1][0] == [pl, dl])
+    ctx.ob('R16.4', site_of(ami, ffp), 'rescaled column is rescale_prob((p, d), *fitted parameters)', okr,
+           f'rescale_prob called with {resc!r}', key='fit_fss_params|rescaled')
+
+
+def _cond_is_closed_interval(cond, er, lo, hi) -> bool:
+    """cond is (lo <= er) & (er <= hi) in any spelling produced by the column algebra."""
+    from ..dfdomain import CT
+    if not (isinstance(cond, CT) and cond.op == 'and' and len(cond.args) == 2):
+        return False
+    lows, highs = 0, 0
+    for c in cond.args:
+        if not isinstance(c, CT):
+            return False
+        a, b = c.args
+        if c.op in ('le',) and a == er and b == hi or c.op in ('ge',) and a == hi and b == er:
+            highs += 1
+        elif c.op in ('ge',) and a == er and b == lo or c.op in ('le',) and a == lo and b == er:
+            lows += 1
+    return lows == 1 and highs == 1
 
 
 def run(ctx: Ctx) -> None:
